@@ -532,7 +532,14 @@ static void run_api_case(const char *line)
       if (k->outSize[0] != k->outSize[1] || !k->out[0] || !k->out[1] || memcmp(k->out[0], k->out[1], k->outSize[0])) det = 0;
     printf(" ; canary=");
     if (canary_bad) printf("bad:b%d@%ld", canary_buf, canary_off); else printf("ok");
-    printf(" det=%s\n", det ? "same" : "diff");
+    /* FNV-1a of everything the call produced: compared across the SIMD dispatch levels by the check */
+    uint32_t hv = 2166136261u;
+    for (int i = 0; i < k->nb; i++) {
+      cbuf *b = &k->b[i];
+      if (b->mode == 'W') for (size_t j = 0; j < b->size; j++) if (b->mod[j]) { hv ^= b->g.buf[j]; hv *= 16777619u; }
+    }
+    if (k->out[1]) for (size_t j = 0; j < k->outSize[1]; j++) { hv ^= k->out[1][j]; hv *= 16777619u; }
+    printf(" det=%s h=%08x\n", det ? "same" : "diff", hv);
   }
   for (int i = 0; i < k->nb; i++) { free(k->b[i].mod); free(k->b[i].first); }
   gfree_all();
